@@ -4,9 +4,11 @@
 //! state, as the node does), so that `InstanceState::migrate` must invalidate entry handles exactly
 //! when the state changed.
 //!
-//! Oracles: (1) the contract's observations (the response pushed by `resume_receive`, reads through a
-//! handle obtained BEFORE the interrupt, reads through a fresh lookup, memory grown before the first
-//! interrupt) equal a reference computed by the harness; (2) running the scenario twice gives the
+//! Oracles: (1) the contract's observations (the response word pushed by `resume_receive`, reads through a
+//! handle obtained BEFORE the interrupt, the raw id and reads of a fresh lookup, memory grown before the
+//! first interrupt) are printed and compared by checks/C13.py with the Coq model
+//! `Contract/V1Resume.v` (`engine_scenario`, over `Trie/InstanceState.v`), which replaced the reference
+//! that used to be hand-written here; (2) running the scenario twice gives the
 //! same return value, logs, energy and final state; (3) the artifact reloaded from its serialisation
 //! (`output` -> `parse_artifact` -> owned) gives the same.
 use crate::ast::*;
@@ -30,8 +32,11 @@ type RR1 = v1::ReceiveResult<CompiledFunction, (), Ctx1>;
 struct Step {
     /// the invoke is made inside a called function (one more frame on the function-frame stack)
     nested: bool,
-    /// response: 0 = success without data, 1 = success with data, 2 = InsufficientAmount, 3 = NonExistentAccount
+    /// response: 0 = success without data, 1 = success with data, 2..=12 = InvokeFailure number 1..=11,
+    /// 13 = ContractReject { code, data }
     resp: u8,
+    data: Vec<u8>,
+    code: i32,
     /// the state is reported as updated on resume
     upd: bool,
     /// a re-entrant call writes this value to the entry during the interrupt (only with `upd`)
@@ -215,11 +220,15 @@ fn run_scenario(art: &Art1, steps: &[Step]) -> Obs {
                                 other => return (format!("reentrant call failed: {:?}", other.map(|_| "non-success")), vec![], 0, vec![], i, vec![]),
                             }
                         }
+                        use v1::InvokeFailure::*;
                         let resp = match s.resp {
                             0 => v1::InvokeResponse::Success { new_balance: Amount::from_micro_ccd(999), data: None },
-                            1 => v1::InvokeResponse::Success { new_balance: Amount::from_micro_ccd(998), data: Some(vec![1, 2, 3]) },
-                            2 => v1::InvokeResponse::Failure { kind: v1::InvokeFailure::InsufficientAmount },
-                            _ => v1::InvokeResponse::Failure { kind: v1::InvokeFailure::NonExistentAccount },
+                            1 => v1::InvokeResponse::Success { new_balance: Amount::from_micro_ccd(998), data: Some(s.data.clone()) },
+                            13 => v1::InvokeResponse::Failure { kind: ContractReject { code: s.code, data: s.data.clone() } },
+                            k => v1::InvokeResponse::Failure { kind: match k - 1 {
+                                1 => InsufficientAmount, 2 => NonExistentAccount, 3 => NonExistentContract, 4 => NonExistentEntrypoint,
+                                5 => SendingV0Failed, 6 => RuntimeError, 7 => UpgradeInvalidModuleRef, 8 => UpgradeInvalidContractName,
+                                9 => UpgradeInvalidVersion, 10 => SignatureDataMalformed, _ => SignatureCheckFailed } },
                         };
                         step = v1::resume_receive::<_, ()>(config, resp, remaining_energy, &mut ms, s.upd, new_loader()).map_err(|e| e.to_string());
                     }
@@ -233,41 +242,18 @@ fn run_scenario(art: &Art1, steps: &[Step]) -> Obs {
     }
 }
 
-/// what the contract must observe
-fn reference(steps: &[Step]) -> (Vec<u8>, Vec<u8>) {
-    let mut cur: Vec<u8> = b"ABCD".to_vec();
-    let mut stale_valid = true;
-    let mut nparams: u64 = 1;
-    let mut rv: Vec<u8> = vec![];
-    // positions of the (unpredicted) raw lookup results are filled with 0xEE and masked in the comparison
+/// the scenario in the token format of ocaml/driver_c13.ml (command ENG)
+fn tokens(steps: &[Step]) -> String {
+    let h4 = |w: &Option<u32>| w.map(|x| hex(&x.to_le_bytes())).unwrap_or_else(|| "-".into());
+    let mut t = vec![format!("ENG {}", steps.len())];
     for s in steps {
-        // failures do not change the state (and the harness never reports `upd` with them)
-        if let (true, Some(w)) = (s.upd, s.reentrant_write) { cur = w.to_le_bytes().to_vec(); }
-        let tag: u64 = if s.upd { 0b1000_0000_0000_0000_0000_0000 } else { 0 };
-        let r: u64 = match s.resp {
-            0 => tag << 40,
-            1 => { let l = nparams; nparams += 1; (l | tag) << 40 }
-            2 => 0x01_0000_0000,
-            _ => 0x02_0000_0000,
-        };
-        if s.upd { stale_valid = false; }
-        rv.extend(r.to_le_bytes());
-        if stale_valid { rv.extend(4u32.to_le_bytes()); rv.extend(&cur); } else { rv.extend(u32::MAX.to_le_bytes()); rv.extend([0u8; 4]); }
-        rv.extend([0xEE; 8]);
-        rv.extend(4u32.to_le_bytes());
-        rv.extend(&cur);
-        if s.refresh { stale_valid = true; }
-        if let Some(w) = s.contract_write { cur = w.to_le_bytes().to_vec(); }
+        t.push(match s.resp { 0 => "s".into(), 1 => format!("d:{}", hex(&s.data)), 13 => format!("r:{}:{}", s.code, hex(&s.data)), k => format!("f:{}", k - 1) });
+        t.push((s.upd as u8).to_string());
+        t.push(h4(&s.reentrant_write));
+        t.push((s.refresh as u8).to_string());
+        t.push(h4(&s.contract_write));
     }
-    rv.extend(0x5a5a_5a5au32.to_le_bytes());
-    (rv, cur)
-}
-
-fn masked_eq(actual: &[u8], expected: &[u8]) -> bool {
-    actual.len() == expected.len() && actual.iter().zip(expected.iter()).enumerate().all(|(i, (a, e))| {
-        let in_lookup = { let j = i % 32; (16..24).contains(&j) && i + 4 < expected.len() };
-        in_lookup || a == e
-    })
+    t.join(" ")
 }
 
 pub fn run(seed: u64, n: u64) {
@@ -279,11 +265,13 @@ pub fn run(seed: u64, n: u64) {
         let k = r.range(1, 4) as usize;
         let steps: Vec<Step> = (0..k)
             .map(|_| {
-                let resp = *r.pick(&[0u8, 0, 1, 1, 2, 3]);
+                let resp = match r.below(10) { 0..=2 => 0u8, 3..=5 => 1, 6 | 7 => 13, _ => r.range(2, 12) as u8 };
                 let upd = resp < 2 && r.chance(1, 2);
                 Step {
                     nested: r.chance(1, 2),
                     resp,
+                    data: { let n = r.range(0, 4) as usize; r.bytes(n) },
+                    code: -(r.range(1, 1 << 20) as i32) - if r.chance(1, 4) { i32::MAX - (1 << 21) } else { 0 },
                     upd,
                     reentrant_write: if upd && r.chance(3, 4) { Some(r.next() as u32) } else { None },
                     refresh: r.chance(1, 3),
@@ -323,18 +311,10 @@ pub fn run(seed: u64, n: u64) {
         let a = run_scenario(&fresh, &steps);
         runs += 1;
         interrupts += a.interrupts as u64;
-        let (exp_rv, exp_k) = reference(&steps);
         if a.out != "success" || a.interrupts != steps.len() {
             viol.push(json!({"kind": "engine-scenario-did-not-complete", "outcome": a.out, "interrupts": a.interrupts}));
-        } else {
-            if !masked_eq(&a.rv, &exp_rv) {
-                viol.push(json!({"kind": "resumed-observations-differ-from-reference", "actual": hex(&a.rv), "expected(lookup results masked EE)": hex(&exp_rv)}));
-            }
-            let k_final = a.state.iter().find(|(k, _)| k == b"k").map(|(_, v)| v.clone());
-            if k_final.as_deref() != Some(&exp_k[..]) {
-                viol.push(json!({"kind": "final-state-differs-from-reference", "actual": k_final.map(|v| hex(&v)), "expected": hex(&exp_k)}));
-            }
         }
+        let k_final = a.state.iter().find(|(k, _)| k == b"k").map(|(_, v)| hex(v));
         let b = run_scenario(&fresh, &steps);
         runs += 1;
         if a != b { viol.push(json!({"kind": "engine-nondeterministic", "first": format!("{:?}", a).chars().take(300).collect::<String>(), "second": format!("{:?}", b).chars().take(300).collect::<String>()})); }
@@ -343,9 +323,7 @@ pub fn run(seed: u64, n: u64) {
             runs += 1;
             if a != c { viol.push(json!({"kind": "engine-reloaded-differs", "fresh": format!("{:?}", a).chars().take(300).collect::<String>(), "reloaded": format!("{:?}", c).chars().take(300).collect::<String>()})); }
         }
-        if !viol.is_empty() {
-            println!("{}", json!({"case": case, "viol": viol}));
-        }
+        println!("{}", json!({"case": case, "eng": tokens(&steps), "out": a.out, "rv": hex(&a.rv), "final": k_final, "viol": viol}));
     }
     println!("{}", json!({"engine_stats": {"scenarios": n, "runs": runs, "interrupts": interrupts, "steps_state_updated": kinds[0], "steps_state_unchanged": kinds[1],
              "nested_invokes": kinds[2], "reentrant_writes": kinds[3], "handle_refreshes": kinds[4], "failure_responses": kinds[5]}}));
